@@ -7,6 +7,8 @@ excitation, variance minimisation) x configuration (plain | baseline + K + per-s
 Reference model: a row's result is what fitting that row ALONE with batch size one gives.
 """
 
+import contextlib
+import io
 import itertools
 import math
 
@@ -230,7 +232,7 @@ def run_unit(unit, rec):
             widx = list(seq)
             if wmode == "position":
                 # a repeated target row under DIFFERENT per-sample weights (the weight row depends on the position, not on the target)
-                if not (use_W is True and proc in ("gaussian", "poisson") and any(seq[i] == seq[i + 1] for i in range(nS - 1))):
+                if not (use_W is True and proc in ("gaussian", "poisson", "excitation") and any(seq[i] == seq[i + 1] for i in range(nS - 1))):
                     continue
                 widx = [(r + i) % 4 for i, r in enumerate(seq)]
             second = unit.get("second")
@@ -244,9 +246,13 @@ def run_unit(unit, rec):
             if nS == L and nS > 1 and proc != "excitation":
                 # the same rows in column-major memory (e.g. the transpose of a (channels x samples) array)
                 bs_items += [(b_, "F") for b_ in bs_menu if b_ not in ("omit", "total")]
+            if nS == L and proc != "excitation":
+                # the same calls with the progress bar switched on (verbose=1)
+                bs_items += [(b_, "C/verbose") for b_ in bs_menu if b_ not in ("omit", "total", None, "full")]
             Bt_c, Wt_c = Bt, Wt
             for bs, layout in bs_items:
-                Bt, Wt = (Bt_c, Wt_c) if layout == "C" else (np.asfortranarray(Bt_c), np.asfortranarray(Wt_c))
+                Bt, Wt = (Bt_c, Wt_c) if layout != "F" else (np.asfortranarray(Bt_c), np.asfortranarray(Wt_c))
+                okw_ = dict(okw, verbose=1) if layout == "C/verbose" else okw
                 if bs == "omit" and nS > 1 and tail[0] != 0:
                     continue
                 if bs == "total" and nS != 2:
@@ -261,7 +267,8 @@ def run_unit(unit, rec):
                     _verif.drain()
                 est_ = B.make_est(spec)
                 try:
-                    X, Bp = _call(est_, proc, Bt, Wt, bs, okw, use_W, L1=(None if L1row is None else L1row[list(seq)]))
+                    with contextlib.redirect_stderr(io.StringIO()) if layout == "C/verbose" else contextlib.nullcontext():
+                        X, Bp = _call(est_, proc, Bt, Wt, bs, okw_, use_W, L1=(None if L1row is None else L1row[list(seq)]))
                 except Exception as e:  # noqa
                     _v(rec, "a", dict(sig, **exc_sig(e)), "%s with %d rows and batch_size=%r raised %r" % (proc, nS, bs, e), case, script=_script(spec, proc, Bt, Wt, bs, okw, use_W, L1=(None if L1row is None else L1row[list(seq)])))
                     rec.outcome("%s/exception" % bcls)
